@@ -86,11 +86,10 @@ func GetNumGPUFractionDevices(pod *v1.Pod) (int64, error) {
 
 func GetGpuGroups(pod *v1.Pod) []string {
 	var gpuGroups []string
-	gpuGroup, found := pod.Labels[constants.GPUGroup]
-	if !found {
-		return nil
+	// a multi fraction pod carries one prefixed label per GPU group and no single-group label
+	if gpuGroup, found := pod.Labels[constants.GPUGroup]; found {
+		gpuGroups = append(gpuGroups, gpuGroup)
 	}
-	gpuGroups = append(gpuGroups, gpuGroup)
 	for labelKey, labelValue := range pod.Labels {
 		if strings.HasPrefix(labelKey, constants.MultiGpuGroupLabelPrefix) {
 			gpuGroups = append(gpuGroups, labelValue)
